@@ -10,7 +10,8 @@ class PlanApp(object):
 
     shape: {"kind": "fixed" | "stream" | "empty" | "nolen-empty" | "error" | "late-error",
             "status": "200 OK", "pieces": [bytes...], "gaps": [n...], "headers": [[k, v]...]}
-    A generator app: yields b'' `gaps[i]` times before piece i (asynchronous processing).
+    A generator app: yields b'' `gaps[i]` times before piece i (asynchronous processing); pieces may be
+    empty themselves.  With "aslist" (not for errors) the app is an ordinary function returning a list.
     """
 
     def __init__(self, shapes, record=None):
@@ -19,6 +20,17 @@ class PlanApp(object):
         self.record = record
 
     def __call__(self, environ, start):
+        path = environ.get("PATH_INFO", "")
+        try:
+            i = int(path.rsplit("/r", 1)[1].split("/")[0])
+        except (IndexError, ValueError):
+            i = -1
+        shape = self.shapes[i] if 0 <= i < len(self.shapes) else {}
+        if shape.get("aslist") and shape.get("kind") != "error":
+            return list(self._gen(environ, start, nogaps=True))
+        return self._gen(environ, start)
+
+    def _gen(self, environ, start, nogaps=False):
         from ioflo.aio.http import httping
         path = environ.get("PATH_INFO", "")
         try:
@@ -33,7 +45,7 @@ class PlanApp(object):
         pieces = [bytes(p) for p in shape.get("pieces", [])]
         gaps = list(shape.get("gaps", [])) + [0] * len(pieces)
         headers = [(str(k), str(v)) for k, v in shape.get("headers", [])]
-        for g in range(shape.get("pregap", 0)):
+        for g in range(0 if nogaps else shape.get("pregap", 0)):
             yield b""
         if kind == "error":
             raise httping.HTTPError(int(shape["status"].split()[0]), title=shape.get("title", "T%d" % i), detail=shape.get("detail", "D%d" % i))
@@ -43,7 +55,7 @@ class PlanApp(object):
             headers.append(("Content-Type", "text/plain"))
         start(shape.get("status", "200 OK"), headers)
         for p, g in zip(pieces, gaps):
-            for _ in range(g):
+            for _ in range(0 if nogaps else g):
                 yield b""
             yield p
 
